@@ -75,6 +75,9 @@ def const_term(c):
 def _val(c, ty):
     if "bytes_hex" in c:
         return T("const", "bytes", c["bytes_hex"])
+    if "elems_hex" in c:
+        # table of string / byte-string references: an array of byte constants
+        return T("agg", ("array",), tuple(T("const", "bytes", h) for h in c["elems_hex"]))
     if "agg" in c and c["agg"].get("fields"):
         # destructured aggregate constant (table of tuples / enum values / byte strings)
         a = c["agg"]
